@@ -128,7 +128,7 @@ def run(ctx):
              "on a fresh vault with 0-12 plans (thorough: up to 30), interleaved with Exists probes, a partial battery in the middle and a full "
              "battery at the end (Exists of every id incl. deleted / never created / nil; all 7 filter-kind combinations single- and multi-valued "
              "incl. unknown ids, absent groups, repeated values, status 150; Running; all statuses; all ids; the empty filter; List limits "
-             "-1,0,1,n-1,n,n+1; cosmosdb: Exists of a stored and an unknown id while every point read is answered 404/409/410/412/429/500/503 or fails without a status, Search and List while every query fails; names and descriptions incl. numeric-looking strings; one ByIDs list of 501 / 600 / 1100 entries per history, never-created ids with the live ids planted around the multiples of 500 oldest first, alone or with group / status filters). evaluations = observations judged (Exists + Search + List + parsed cosmos Search and List query texts); distinct = distinct "
+             "-1,0,1,n-1,n,n+1; cosmosdb: Exists of a stored and an unknown id while every point read is answered 404/409/410/412/429/500/503 or fails without a status, Search and List while every query fails; names and descriptions incl. numeric-looking strings; the cosmosdb fake hands query results out in pages of 0 (= one page), 1, 2 or 3 items, in half of the paged histories with an empty page before every later page; one ByIDs list of 501 / 600 / 1100 entries per history, never-created ids with the live ids planted around the multiples of 500 oldest first, alone or with group / status filters). evaluations = observations judged (Exists + Search + List + parsed cosmos Search and List query texts); distinct = distinct "
              "(history, observations) by hash; non-trivial = at least 2 live plans at the end and more than 10 steps",
         samples=[dict(id=c["id"], backend=c["kind"], dist={k: v for k, v in c["dist"].items() if k != "hist"},
                       first_steps=c["observed"][:6], last_steps=c["observed"][-3:]) for c in live[3:6]],
@@ -136,6 +136,7 @@ def run(ctx):
         histories=len(live), steps=steps, worker_crashes=len(crashed),
         distribution=dict(
             backend=fw.histogram(c["kind"] for c in live),
+            cosmos_paging=fw.histogram(c["dist"].get("paging") for c in live if c["kind"] == "cosmos"),
             store_size_created=fw.histogram(c["dist"]["plans"] for c in live),
             store_size_live_at_end=fw.histogram(c["dist"]["live"] for c in live),
             tied_plans_at_end=fw.histogram(c["dist"]["tied_plans"] for c in live),
